@@ -61,6 +61,7 @@ unsigned long __CPROVER_uninterpreted_stdhash(unsigned long);
 #define XV_STDHASH(x) __CPROVER_uninterpreted_stdhash(x)   /* std::hash<integer>: some function of the value */
 #define XV_SWAP(T, a, b) do { T xv_tmp = *(a); *(a) = *(b); *(b) = xv_tmp; } while (0)
 #include "xv_vec.h"
+#include "xv_chr.h"
 
 static inline void xv_abort(void) { __CPROVER_assume(0); }
 #endif
